@@ -335,7 +335,9 @@ func memoryBytesNumToPages(bytesNum uint64) (pages uint32) {
 //
 // Note: This is always fine, because memory can grow, but never shrink.
 func (m *MemoryInstance) hasSize(offset uint32, byteCount uint64) bool {
-	return uint64(offset)+byteCount <= uint64(len(m.Buffer)) // uint64 prevents overflow on add
+	// ModuleInstance.Memory hands out a nil *MemoryInstance (in a non-nil api.Memory) for a module without
+	// memory: every range is out of bounds then, for host functions that do not expect such a guest.
+	return m != nil && uint64(offset)+byteCount <= uint64(len(m.Buffer)) // uint64 prevents overflow on add
 }
 
 // readUint32Le implements ReadUint32Le without using a context. This is extracted as both ints and floats are stored in
